@@ -16,9 +16,12 @@ import (
 	"go/parser"
 	"go/printer"
 	"go/token"
+	"os"
+	osexec "os/exec"
 	"path/filepath"
 	"strconv"
 	"strings"
+	"sync"
 
 	"github.com/gocql/gocql"
 	"verifharness/vh"
@@ -209,6 +212,111 @@ func astFacts() string {
 		guard, copies, state, nAssign+other, next, clamp, carries, manual, fetchOnce, async, scanSw, scnrSw)
 }
 
+// ---------- crash supervision ----------
+//
+// A panic in one of gocql's own goroutines (not in a call the harness makes) cannot be recovered: it kills
+// the process. `run` therefore works in a child process that journals which scenario is in flight; if the
+// child dies, the supervisor runs each in-flight scenario alone in a fresh process, and a scenario that
+// kills that process too is written out as the run's result with the answer `crash:<panic line>` — a
+// concrete, replayable failing input instead of a broken run. If none does (the crash needs the
+// concurrency), the child's exit status stands.
+
+var journal struct {
+	mu sync.Mutex
+	f  *os.File
+}
+
+func journalStart(i int, op string) {
+	if journal.f != nil {
+		journal.mu.Lock()
+		fmt.Fprintf(journal.f, "S %d %s\n", i, op)
+		journal.mu.Unlock()
+	}
+}
+
+func journalDone(i int) {
+	if journal.f != nil {
+		journal.mu.Lock()
+		fmt.Fprintf(journal.f, "D %d\n", i)
+		journal.mu.Unlock()
+	}
+}
+
+func supervise(tier, path string) {
+	os.MkdirAll(path, 0o755)
+	jpath := filepath.Join(path, "journal.txt")
+	os.Remove(jpath)
+	cmd := osexec.Command(os.Args[0], os.Args[1:]...)
+	cmd.Env = append(os.Environ(), "C15_CHILD=1", "C15_JOURNAL="+jpath)
+	var buf bytes.Buffer
+	cmd.Stdout, cmd.Stderr = &buf, &buf
+	err := cmd.Run()
+	if err == nil {
+		os.Stdout.Write(buf.Bytes())
+		return
+	}
+	code := 1
+	if ee, ok := err.(*osexec.ExitError); ok && ee.ExitCode() > 0 {
+		code = ee.ExitCode()
+	}
+	inflight := map[string]string{}
+	var order []string
+	if f, e := os.Open(jpath); e == nil {
+		for _, l := range vh.ReadLines(jpath) {
+			w := strings.SplitN(l, " ", 3)
+			switch {
+			case len(w) == 3 && w[0] == "S":
+				inflight[w[1]] = w[2]
+				order = append(order, w[1])
+			case len(w) == 2 && w[0] == "D":
+				delete(inflight, w[1])
+			}
+		}
+		f.Close()
+	}
+	var ops, answers []string
+	for _, id := range order {
+		op, ok := inflight[id]
+		if !ok || len(ops) >= 8 {
+			continue
+		}
+		delete(inflight, id)
+		tmp := filepath.Join(path, "crash_candidate.txt")
+		os.WriteFile(tmp, []byte(op+"\n"), 0o644)
+		c := osexec.Command(os.Args[0], "replay", "-", tmp)
+		var out bytes.Buffer
+		c.Stdout, c.Stderr = &out, &out
+		if e := c.Run(); e != nil {
+			msg := "process died"
+			for _, l := range strings.Split(out.String(), "\n") {
+				if strings.HasPrefix(l, "panic:") || strings.HasPrefix(l, "fatal error:") {
+					msg = l
+					break
+				}
+			}
+			ops = append(ops, op)
+			answers = append(answers, "crash:"+strings.ReplaceAll(msg, " ", "_"))
+		}
+	}
+	if len(ops) == 0 {
+		os.Stdout.Write(buf.Bytes())
+		os.Exit(code)
+	}
+	fmt.Printf("the run died (exit %d); %d scenario(s) kill the process when run alone\n", code, len(ops))
+	out := vh.NewOut(path)
+	for i, op := range ops {
+		out.Case(op, answers[i], "process-crash", true)
+	}
+	out.Close(map[string]interface{}{"process_crash_output": tailString(buf.String(), 3000)})
+}
+
+func tailString(s string, n int) string {
+	if len(s) > n {
+		return s[len(s)-n:]
+	}
+	return s
+}
+
 func main() {
 	mode, tier, path := vh.Args()
 	if mode == "replay" {
@@ -216,6 +324,13 @@ func main() {
 			fmt.Println(exec(l))
 		}
 		return
+	}
+	if os.Getenv("C15_CHILD") == "" {
+		supervise(tier, path)
+		return
+	}
+	if jp := os.Getenv("C15_JOURNAL"); jp != "" {
+		journal.f, _ = os.OpenFile(jp, os.O_CREATE|os.O_WRONLY|os.O_APPEND, 0o644)
 	}
 	r := vh.NewRng(vh.EnvSeed())
 	out := vh.NewOut(path)
